@@ -2,6 +2,7 @@
 #![allow(dead_code)]
 
 mod cli;
+mod clock;
 mod comp;
 mod desc;
 mod engine;
@@ -16,6 +17,7 @@ mod procs;
 mod props;
 mod pycheck;
 mod reach;
+mod synth;
 mod threads;
 
 use engine::{Tier, Found};
@@ -67,13 +69,39 @@ fn main() {
                 None => 2,
             }
         }
+        "synth" => {
+            // synth <depth> <max_states>: size of the model exploration (diagnostic)
+            let d = args.get(2).and_then(|s| s.parse().ok()).unwrap_or(8);
+            let ms = args.get(3).and_then(|s| s.parse().ok()).unwrap_or(2_000_000);
+            let t = std::time::Instant::now();
+            let vocab: &[&'static str] = if args.get(4).map(|s| s.as_str()) == Some("containers") { &synth::VOCAB_CONTAINERS } else { &synth::VOCAB_OBJECTS };
+            let (progs, st) = synth::cycle_programs(vocab, d, ms);
+            println!("depth {} states {} transitions {} cycle programs {} in {:?}", st.depth, st.states, st.transitions, progs.len(), t.elapsed());
+            let mut by_len = std::collections::BTreeMap::new();
+            for p in &progs {
+                *by_len.entry(p.ops.len()).or_insert(0) += 1;
+            }
+            println!("by length {:?}", by_len);
+            for p in progs.iter().take(5) {
+                println!("  {}", p.ops.join(" "));
+            }
+            let want = ["GLOBAL", "EMPTY_TUPLE", "REDUCE", "EMPTY_DICT", "BUILD", "BINPUT", "EMPTY_DICT", "NONE", "BINGET", "SETITEM", "BUILD"];
+            println!("contains the C14b shape: {}", progs.iter().any(|p| p.ops == want));
+            println!("{}", synth::debug_run(&want));
+            0
+        }
         "selfhash" => {
             let n = args.get(2).and_then(|s| s.parse().ok()).unwrap_or(100);
             println!("{:016x}", selfhash(n));
             0
         }
         "build-front-ends" => match cli::build_front_ends() {
-            Ok(()) => 0,
+            Ok(()) => {
+                if !clock::ensure_shim() {
+                    eprintln!("note: clock shim could not be built (no C compiler?): C07 runs without clock-jump faults");
+                }
+                0
+            }
             Err(e) => {
                 eprintln!("HARNESS ERROR: {}", e);
                 2
@@ -180,8 +208,10 @@ fn minimise_plan(plan: &threads::Plan, class: &str) -> (threads::Plan, usize) {
 
 type C07Found = (u64, threads::Plan, props::Violation);
 
-fn c07_sweep(seed: u64, sims: u64, cap: f64, t0: std::time::Instant) -> (engine::Stats, Vec<C07Found>, std::collections::HashSet<u64>) {
+fn c07_sweep(seed: u64, sims: u64, cap: f64, _t0: std::time::Instant) -> (engine::Stats, Vec<C07Found>, std::collections::HashSet<u64>) {
     use std::sync::atomic::{AtomicU64, Ordering};
+    // injected clock jumps must not eat the harness's own budget: it is kept on the real clock
+    let start = clock::real_seconds();
     let nt = engine::n_threads() as u64;
     let first_bad = AtomicU64::new(u64::MAX);
     let results: Vec<(engine::Stats, Vec<C07Found>, std::collections::HashSet<u64>)> = std::thread::scope(|s| {
@@ -194,7 +224,7 @@ fn c07_sweep(seed: u64, sims: u64, cap: f64, t0: std::time::Instant) -> (engine:
                 let mut schedules = std::collections::HashSet::new();
                 let mut i = t;
                 while i < sims {
-                    if i > first_bad.load(Ordering::Relaxed) || t0.elapsed().as_secs_f64() > cap {
+                    if i > first_bad.load(Ordering::Relaxed) || clock::real_seconds() - start > cap {
                         break;
                     }
                     let plan = threads::draw_plan(seed, i);
@@ -290,7 +320,12 @@ fn confirm_or_prefix(prop: &str, path: String, v: &props::Violation, tier: Tier,
 }
 
 fn check_c07(tier: Tier, seed: u64) -> i32 {
+    // the clock seam: run under the LD_PRELOAD shim so that clock-jump faults are effective
+    if let Some(code) = clock::reexec_under_shim() {
+        return code;
+    }
     let t0 = std::time::Instant::now();
+    let wall_start = clock::real_seconds();
     let known = engine::load_known();
     let sims = runs_override(match tier { Tier::Quick => 2_500, Tier::Thorough => 250_000 });
     let cap = wall_cap(tier);
@@ -372,13 +407,14 @@ fn check_c07(tier: Tier, seed: u64) -> i32 {
             nviol = 1;
         }
     }
-    let wall = t0.elapsed().as_secs_f64();
+    let wall = clock::real_seconds() - wall_start;
     stats.add("c07.distinct_schedules(by hash of the schedule string)", schedules.len() as u64);
     engine::write_evidence(engine::EvidenceIn {
         prop: "C07", tier, seed, level: "exploration",
         rule: "one evaluation = one multi-task simulation: 1..10 generator tasks (most with a twin under another simulator-chosen memo hash key) placed on 1..16 real OS threads, interleaved at emission granularity by a seeded baton scheduler (policies bursty/uniform/round-robin/PCT-style/sequential); every task's bytes must equal the same task run alone on a fresh thread with the canonical key; plus the same scenario batch digested in 8 fresh processes; non-trivial = some task emitted a GET-family opcode with >= 2 memo keys (the only place map order can reach the output) or twins overlapped in time; distinct = distinct (schedule string, outputs) digests",
         stats: &stats, wall_s: wall, violations: nviol, known: 0,
         extra: json!({"simulations_requested": sims, "distinct_schedules": schedules.len(), "fresh_processes": outs.len(),
+            "clock_seam": {"controlled_by_simulator": clock::controlled(), "how": "LD_PRELOAD shim over clock_gettime/gettimeofday (sim/c/clockshim.c); jumps of 1 s .. 1 h injected at scheduler steps", "clock_reads_served_by_the_shim": clock::reads()},
             "not_controlled": ["rayon scheduling inside the CLI (observed by C13 at several worker counts)", "ASLR / allocation addresses and the hash seeds of pointer-keyed Dict/Set cells (varied per process/thread, not chosen)"]}),
         assumptions: vec!["exactly one task thread runs at any time (baton), so data races are not observable here; the library has no shared mutable state except a OnceLock".into(),
             "only the memo map is keyed by the simulator; pointer-keyed sets are varied, not chosen".into()],
@@ -580,7 +616,7 @@ fn check_c09(tier: Tier, seed: u64) -> i32 {
     stats.add("worker_process_restarts", out.worker_restarts);
     engine::write_evidence(engine::EvidenceIn {
         prop: "C09", tier, seed, level: "exploration", rule: spec.rule, stats: &stats, wall_s: out.wall_s, violations: nviol, known: 0,
-        extra: json!({"runs_requested": runs, "enumerated_short_script_runs": engine::enum_count(&spec, tier), "worker_processes": engine::n_threads(), "worker_stack_bytes": 2 << 20,
+        extra: json!({"runs_requested": runs, "enumerated_short_script_runs": engine::enum_count(&spec, tier), "extremal_state_runs": engine::deep_count(&spec, tier), "long_lived_generator_runs": engine::soak_count(&spec, tier), "worker_processes": engine::n_threads(), "worker_stack_bytes": 2 << 20,
             "watchdog_budget_s": budget.as_secs(), "wall_cap_hit": out.capped,
             "isolation": "each shard runs in its own child process; a death is attributed to the run in flight (BEGIN/END protocol on the pipe); a watchdog kill is confirmed by a solo re-execution in a fresh process before it is called a hang"}),
         assumptions: vec!["panics are caught with catch_unwind in a build with debug-assertions and overflow-checks; aborts/stack overflows are seen as worker deaths".into(),
@@ -769,6 +805,24 @@ fn check_solo_family(prop: &str, tier: Tier, seed: u64) -> i32 {
             }
         }
     }
+    // C14: model-based synthesis of cycle-forming object-graph programs, steered through the generator
+    let mut synth_info = json!(null);
+    let mut synth_found: Vec<(desc::Scenario, props::Violation)> = vec![];
+    if prop == "C14" {
+        let (d1, d2) = match tier { Tier::Quick => (11usize, 7usize), Tier::Thorough => (13, 9) };
+        let so = synth::leak_sweep(d1, d2, &mut stats);
+        stats.evaluations += so.steered as u64;
+        stats.add("synth.programs_steered_and_measured", so.steered as u64);
+        synth_info = json!({"reference_states_explored": so.states, "reference_transitions": so.transitions, "cycle_forming_programs": so.programs,
+            "steered_through_the_real_generator": so.steered, "not_offered_by_the_generator": so.unsteerable, "depth_objects_vocabulary": d1, "depth_containers_vocabulary": d2,
+            "examples": so.samples,
+            "note": "breadth-first exploration of the reference machine R3 (states up to renaming of identities, <= 4 stack slots, <= 1 memo entry) over two small vocabularies; every state in which the last opcode closed an alias cycle yields up to 4 shortest programs; each is steered through the real generator via the fuzzer-bytes seam and measured by the live-heap probe"});
+        for (sc, v) in so.found {
+            if engine::known_match(&known, &v).is_none() {
+                synth_found.push((sc, v));
+            }
+        }
+    }
     // oracle self-check against CPython on a sample of outputs (pristine) and damaged variants
     let mut py: Vec<(Vec<u8>, bool)> = vec![];
     stats.py_samples.sort_by_key(|s| s.0);
@@ -814,6 +868,15 @@ fn check_solo_family(prop: &str, tier: Tier, seed: u64) -> i32 {
         }
     }
     if code == 0 {
+        if let Some((sc, v)) = synth_found.first() {
+            let path = engine::write_replay(prop, "scenario", sc.to_json(), v, false, json!({"found_by": "model-based program synthesis + steering"}));
+            println!("violation class={} (synthesised program) detail={}", v.class, v.detail);
+            println!("VIOLATION property={} replay={}", prop, path);
+            code = 1;
+            nviol = synth_found.len();
+        }
+    }
+    if code == 0 {
         if let Some(v) = soak_found.first() {
             let path = engine::write_replay(prop, "soak", json!({"verif_seed": seed.to_string(), "tier": tier.name()}), v, false, json!({}));
             println!("violation class={} detail={}", v.class, v.detail);
@@ -846,6 +909,7 @@ fn check_solo_family(prop: &str, tier: Tier, seed: u64) -> i32 {
             "runs_requested": runs,
             "wall_cap_hit": out.capped,
             "decision_tree_enumeration": tree_info,
+            "model_based_program_synthesis": synth_info,
             "cpython_cross_check": {"available": rep.available, "compared": rep.compared, "hard_disagreements": rep.hard.len(), "soft_disagreements_on_damaged_inputs": rep.soft.len()},
         }),
         assumptions: engine::default_assumptions(),
@@ -930,6 +994,11 @@ fn run_replay(path: &str) -> i32 {
             }
         }
         "sweep-prefix" => {
+            if prop == "C07" {
+                if let Some(code) = clock::reexec_under_shim() {
+                    return code;
+                }
+            }
             let b = &doc["scenario"];
             let tier = if b["tier"].as_str() == Some("thorough") { Tier::Thorough } else { Tier::Quick };
             let seed: u64 = b["verif_seed"].as_str().and_then(|s| s.parse().ok()).unwrap_or(engine::DEFAULT_SEED);
@@ -1009,6 +1078,9 @@ fn run_replay(path: &str) -> i32 {
             }
         }
         "plan" => {
+            if let Some(code) = clock::reexec_under_shim() {
+                return code;
+            }
             let Some(plan) = threads::Plan::from_json(&doc["scenario"]) else {
                 eprintln!("bad plan");
                 return 2;
